@@ -25,6 +25,7 @@ RULE = ("random queries whose condition contains at least one user predicate (fu
         "HasType) over 1-2 variables, depth<=3, quantifier an / the / infer (infer and a share of an/the use a rule head "
         "V(b=x, k=expr) built in rule mode), each evaluated from a fresh build under ambient none, query and rule mode and inside the query's own symbolic_mode(q) / rule_mode(q) block, also nested in another query's block; a fifth of the conditions contain a predicate that builds and evaluates a query of its own (with a Predicate subclass in it); for half of the an/infer cases the ambient mode also changes between successive results (one scheduled mode per next()); a share of the single-variable cases take their domain from a nested query that is evaluated lazily; a quarter of the cases have a comparison operand that is a nested the()/an() query of its own (sharing no variable with the rest) whose condition is a Predicate subclass calling a function predicate; further situations: evaluated inside a plain `with other_query:` block, evaluated outside after the query was opened once as an empty block of its own, a predicate that leaves a generator suspended inside its own symbolic block, an infer iterator read for one instance and closed under each ambient mode (what a later registry query sees must not depend on it). "
         "Non-trivial: the oracle outcome is not empty/none. distinct by structural hash.")
+RULE += " Size cases (every tier): 270-330 objects nearly all of which qualify (about 300 results per evaluation, Predicate subclass conditions, half with a constructing rule head) under the plain ambient modes and the query's own block; a selected concatenation of 100+ elements over a query domain."
 LEVEL_TEXT = ("Configuration differential on the real code (three ambient modes) plus oracle; predicate call counters "
               "show that user code really ran concretely in every mode; result objects are type-checked.")
 LEVEL_NOTE = "Trusted: oracle; the predicate call counters in eqlmon/data.py."
